@@ -101,6 +101,14 @@ def both_scenarios():
         evs = {"PL": {"class": "PriceLimitRule", "targetMarkets": ["M0", "M1"], "triggerChangeRate": 0.9375},
                "Mi": {"class": "OrderMistakeShock", "target": target, "triggerTime": 1, "priceChangeRate": -0.5, "orderVolume": 5, "orderTimeLength": 2}}
         sc[name] = base(evs, [["PL", "Mi"], []], dict(mshocks=[dict(target=target, session=0, triggerTime=1, rate=-0.5, volume=5, lifetime=2, enabled=True)]), name)
+    # ... and with a band NARROWER than the mistake (75..125 around 100, the mistake is priced at 50), the rule listed before and
+    # after the shock: the replacement order is the last word on the price, as the statement says, wherever the rule is listed
+    for target in ("M0", "M1"):
+        for order in (["PL", "Mi"], ["Mi", "PL"]):
+            name = "mistake+narrow_limit:%s:%s_first" % (target, order[0])
+            evs = {"PL": {"class": "PriceLimitRule", "targetMarkets": ["M0", "M1"], "triggerChangeRate": 0.25},
+                   "Mi": {"class": "OrderMistakeShock", "target": target, "triggerTime": 1, "priceChangeRate": -0.5, "orderVolume": 5, "orderTimeLength": 2}}
+            sc[name] = base(evs, [list(order), []], dict(mshocks=[dict(target=target, session=0, triggerTime=1, rate=-0.5, volume=5, lifetime=2, enabled=True)]), name)
     return sc
 
 
